@@ -23,7 +23,7 @@ import (
 	"github.com/flamego/flamego/verifharness/internal/rt"
 )
 
-const rule = "case = a history of 3..25 operations over one Flame and, per method, one mirror route.Tree populated identically: register(static | optional-static | dynamic route that can shadow a static one), headers(route, pairs) mirrored with SetHeaderMatcher, request(method, path, headers) with paths = route instances, the route text itself used as a path, extra leading slashes, trailing slashes. " +
+const rule = "case = a history of 3..25 operations over one Flame and, per method, one mirror route.Tree populated identically: register(static | optional-static | optional twin of a registered route | dynamic route that can shadow a static one; through Route or, for comma lists in any case, Routes), headers(route, pairs) mirrored with SetHeaderMatcher, request(method, path, headers) with paths = route instances, the route text itself used as a path, extra leading slashes, trailing slashes. " +
 	"Oracle (differential, after every request): handler that ran / not-found and parameters from Flame.ServeHTTP == Tree.Match on the mirror; additionally == the reference matcher. " +
 	"non-trivial = a history with a request answered by a fully static, unconstrained route (the shortcut's domain) after >=2 registrations, or a request whose path contains route-syntax characters ('?', '{'), or a request that follows a headers operation on a static route; distinct by case text"
 
